@@ -154,6 +154,21 @@ class SymList(HeapObj):
         self.is_tuple = is_tuple
 
 
+class SymIter(HeapObj):
+    """A one-shot iterator (result of map / filter / zip / enumerate / reversed / a generator
+    expression): the elements not yet consumed, [[presence Cond, Value], ...].  Consumption updates
+    the presences in place (under the consumer's path condition), so a second consumption sees
+    what Python would see.  Element values are computed when the iterator is created (stated
+    modelling assumption: the inputs are not modified between creation and consumption)."""
+
+    __slots__ = ("elems", "indeterminate")
+
+    def __init__(self, elems=None):
+        self._init_heap()
+        self.elems = elems if elems is not None else []
+        self.indeterminate = False
+
+
 class SymDict(HeapObj):
     """Concrete keys in first-insertion order; per key presence Cond and Value."""
 
